@@ -58,6 +58,7 @@ fn main() {
         let case = &v["case"];
         let code = match prop.as_str() {
             "C20" => nqverif::c20::replay(case),
+            "C01" | "C02" => nqverif::c01::replay(case, &prop),
             "C03" | "C04" => nqverif::c03::replay(case),
             "C05" => nqverif::c05::replay(case),
             "C06" => nqverif::c06::replay(case),
@@ -75,6 +76,7 @@ fn main() {
     }
     let code = match prop.as_str() {
         "C20" => nqverif::c20::run(&args),
+        "C01" | "C02" => nqverif::c01::run(&args, &prop),
         "C03" => nqverif::c03::run03(&args),
         "C04" => nqverif::c03::run04(&args),
         "C05" => nqverif::c05::run(&args),
